@@ -248,3 +248,56 @@ func VP_C04_SmoothJoin() {
 	vp.Assert(vp.Implies(r == 0, got == union), "radius 0 is the plain union")
 	vp.Reach("end")
 }
+
+// vpBoxNormalSDF: arbitrary signed distance and arbitrary unit normal.
+type vpBoxNormalSDF struct {
+	vpBoxSDF
+}
+
+func (s *vpBoxNormalSDF) NormalSDF(c Coord3D) (Coord3D, float64) {
+	n := XYZ(vp.MemoFloat(s.name+".nx", c.X, c.Y, c.Z), vp.MemoFloat(s.name+".ny", c.X, c.Y, c.Z), vp.MemoFloat(s.name+".nz", c.X, c.Y, c.Z))
+	vp.AssumeEq(n.Dot(n), 1)
+	return n, s.SDF(c)
+}
+
+// VP_C04_SmoothJoinV2: as VP_C04_SmoothJoin for the normal-aware variant.
+// Operand distances are assumed pairwise different (with a tie for second
+// place the variant legitimately has to pick one of two normals).
+func VP_C04_SmoothJoinV2() {
+	n := vp.Param("n")
+	names := []string{"A", "B", "C", "D", "E"}
+	var sdfs []NormalSDF
+	for i := 0; i < n; i++ {
+		sdfs = append(sdfs, &vpBoxNormalSDF{vpBoxSDF{*vpNewBoxSolid(names[i])}})
+	}
+	r := vp.Float64("radius")
+	vp.Assume(r >= 0)
+	c := vpPoint("c")
+	d := make([]float64, n)
+	union := false
+	near := 0
+	for i, s := range sdfs {
+		d[i] = s.SDF(c)
+		union = vp.Or(union, d[i] > 0)
+		near += vp.IteI(d[i] > -r, 1, 0)
+		for j := 0; j < i; j++ {
+			vp.Assume(d[i] != d[j])
+		}
+	}
+	base := SmoothJoinV2(r, sdfs...)
+	vp.Assume(vpInBox(c, base.Min(), base.Max()))
+	got := base.Contains(c)
+	perm := vp.Perm("perm", n)
+	psdfs := make([]NormalSDF, n)
+	for i, j := range perm {
+		psdfs[i] = sdfs[j]
+	}
+	vp.Assert(SmoothJoinV2(r, psdfs...).Contains(c) == got, "SmoothJoinV2 is independent of operand order")
+	vp.Assert(vp.Implies(union, got), "SmoothJoinV2 contains the plain union")
+	if n == 1 {
+		vp.Assert(got == union, "SmoothJoinV2 of a single operand is the operand")
+	}
+	_ = near
+	vp.Assert(vp.Implies(r == 0, got == union), "radius 0 is the plain union")
+	vp.Reach("end")
+}
